@@ -504,6 +504,7 @@ class Interp:
                 if self.steps > self.MAX_STEPS:
                     raise Violation('the abstract run does not terminate within %d steps (a loop never reaches its exit)' % self.MAX_STEPS, fn.loc(e))
                 r = self.ev(fn, e, env, val, this, depth)
+                val.setdefault('#st', {})[e['i']] = self.steps
                 if r is not None and r[0] == 'ret':
                     return r[1]
             succ = blk['succ']
@@ -585,6 +586,11 @@ class Interp:
             v = val[cond]
             if isinstance(v, LV):
                 v = v.load()
+            if v is None and fn.N(cond).get('v') is not None:
+                v = fn.N(cond)['v']                 # a condition the compiler folded (sizeof(T) > 1): its value is in the node
+            if v is None and len([x for x in succ if x is not None]) == 1:
+                b = [x for x in succ if x is not None][0]        # ... and the edge it can never take was pruned from the graph
+                continue
             tr = self.truth(v, fn, fn.N(cond))
             nxt = succ[0] if tr else succ[1]
             if nxt is None:
@@ -821,10 +827,11 @@ class Interp:
             arms = [x for x in c[1:3] if isinstance(x, int) and x in val]
             # only the arm on the executed path has been evaluated *after* the condition; pick by the condition's truth
             cv = self.rv(V(c[0]))
-            if cv is None and len(arms) == 1:
+            if cv is None and arms:
                 # the condition is a short-circuit expression spread over several blocks (no value of its own): the arm that was
-                # evaluated on this path is the one the condition chose
-                val[i] = V(arms[0])
+                # evaluated on this path -- in a loop: most recently -- is the one the condition chose
+                st_ = val.get('#st', {})
+                val[i] = V(max(arms, key=lambda a_: st_.get(a_, -1)))
                 return
             tr = self.truth(cv, fn, e) if not isinstance(cv, Op) else None
             if tr is None:
